@@ -25,6 +25,7 @@ ASSUMPTIONS = ["reference channel simulation on dense density matrices: depolari
                "differently by design: post-selection vs per-branch)", "tolerance 1e-9"]
 REQUIRED_CLASSES = {"noisy": ["entangling", "class_U", "class_M", "two_qubit_mixed_placement", "wrapper_noise_list", "strength_0", "strength_1",
                               "before", "after", "kind:depol", "kind:pauli", "kind:loss"],
+                    "large": ["qubits>=32", "kind:depol"],
                     "map": ["via_map", "wrapper_asymmetric_noise", "two_qubit_mixed_placement", "class_M", "entangling", "emitter+photon"]}
 
 PAULIS = "IXYZ"
@@ -491,6 +492,99 @@ def st_case(draw, tier="quick"):
     return {"circ": {"ne": ne, "np": np_, "nc": nc, "ops": ops_}, "noises": noises, "targets": targets}
 
 
+def check_blocks(case, sub="large"):
+    """stabilizer backend on 30..44 qubits: the circuit is a tensor product of blocks of <= 3 photons, each with its own
+    noise; total weight and fidelity with a product stabilizer target must equal the products of the per-block dense references"""
+    blocks = case["blocks"]
+    N = sum(b["circ"]["np"] for b in blocks)
+    big_ops, big_noises, target = [], [], []
+    want_w = want_f = 1.0
+    off = 0
+    n_dep = 0
+    for b in blocks:
+        desc, noises = b["circ"], b["noises"]
+        nb = desc["np"]
+        circ_b, objs_b = build_noisy(desc, noises, return_ops=True)
+        rho_b, trace_b, _ = reference(desc, circ_b, objs=objs_b, noises=noises)
+        # target of the block: its own noiseless output state, followed by the block's extra target word (a random product
+        # target would make almost every product of fidelities zero)
+        ps = rp.PauliSim(nb)
+        run = gc.RefRun(desc)
+        for d in gc.expand(desc["ops"]) + [[w[0], "p", w[1]] if len(w) == 2 else [w[0], "p", w[1], "p", w[2]] for w in b["target"]["word"]]:
+            if d[0] == "I" or (len(gc.qregs(d)) == 2 and d[2] == d[4]):
+                continue
+            run.step(d, 0)
+            if d[0] in gc.ONE:
+                ps.gate1(d[0], d[2])
+            elif d[0] == "CNOT":
+                ps.cnot(d[2], d[4])
+            else:
+                ps.cz(d[2], d[4])
+        S, tv = list(ps.stab), run.v
+        want_w *= trace_b
+        want_f *= float(np.real(np.vdot(tv, rho_b @ tv)))
+        target += [(x << off, z << off, k) for x, z, k in S]
+        for d in desc["ops"]:
+            d = list(d)
+            d[2] += off
+            if len(gc.qregs(d)) == 2:
+                d[4] += off
+            big_ops.append(d)
+        big_noises += list(noises)
+        n_dep += sum(1 for nz in noises for s_ in (nz if (nz and isinstance(nz[0], (list, type(None)))) else [nz]) if s_ and s_[0] == "depol")
+        off += nb
+    desc_big = {"ne": 0, "np": N, "nc": 1, "ops": big_ops}
+    circ = build_noisy(desc_big, big_noises)
+    cl = ["qubits>=32"] if N >= 32 else []
+    if n_dep:
+        cl.append("kind:depol")
+    sst = compile_noisy(sub, "blocks", circ, "stab")
+    mix = mixture_of(sst)
+    total = sum(p for p, t in mix)
+    if abs(total - want_w) > 1e-9:
+        raise Violation(sub, "weight", "stab", "blocks", "%d qubits: total weight %.12g, product of the blocks' survival probabilities %.12g" % (N, total, want_w))
+    got = 0.0
+    for p, t in mix:
+        got += p * rp.stabilizer_overlap2(rp.stabilizer_paulis(t), target, N)
+    if abs(got - want_f) > 1e-8:
+        raise Violation(sub, "fidelity-mismatch", "stab-vs-blocks", "blocks",
+                        "%d qubits: sum p_i |<t|s_i>|^2 = %.10g, product of the blocks' reference fidelities %.10g" % (N, got, want_f))
+    return Info(nontrivial=(N >= 32 and n_dep >= 1), classes=cl)
+
+
+@st.composite
+def st_blocks(draw, tier="quick"):
+    blocks = []
+    total = 0
+    goal = draw(st.integers(30, 44))
+    dep_left = [3]
+    while total < goal:
+        nb = draw(st.integers(1, 3))
+        noisy = draw(st.integers(0, 3)) == 0
+        ops_ = draw(st.lists(gc.st_op(0, nb, 1, allow_measure=False), min_size=1, max_size=6))
+        noises = []
+        for d in ops_:
+            def spec():
+                s_ = draw(st.one_of(st.none(), st_spec())) if noisy else None
+                if s_ is not None and s_[0] == "depol":
+                    if dep_left[0] == 0:
+                        return ["pauli", draw(st.integers(0, 3)), s_[2]]
+                    dep_left[0] -= 1
+                return s_
+            if d[0] in gc.ONE:
+                noises.append(spec())
+            elif d[0] == "W":
+                lst = [spec() for _ in d[3]]
+                noises.append(lst if any(x is not None for x in lst) else None)
+            else:
+                a, b_ = spec(), spec()
+                noises.append([a, b_] if (a is not None or b_ is not None) else None)
+        blocks.append({"circ": {"ne": 0, "np": nb, "nc": 1, "ops": ops_}, "noises": noises,
+                       "target": {"word": draw(gs.st_word(nb - 1, 2)) if draw(st.integers(0, 3)) == 0 else [], "rowops": []}})
+        total += nb
+    return {"blocks": blocks}
+
+
 @st.composite
 def st_map_case(draw, tier="quick"):
     maxq = 4 if tier == "quick" else 5
@@ -532,5 +626,7 @@ SUBS = [
     Sub("noisy", check, strategy=lambda tier: st_case(tier), n={"quick": 100, "thorough": 2000}, timeout={"quick": 120, "thorough": 300}),
     Sub("map", check_map, strategy=lambda tier: st_map_case(tier), n={"quick": 60, "thorough": 1500}, timeout={"quick": 120, "thorough": 300},
         doc="noise attached through CircuitDAG.assign_noise(map): the copy behaves as if every operation carried the model the map names for it"),
+    Sub("large", check_blocks, strategy=lambda tier: st_blocks(tier), n={"quick": 12, "thorough": 300}, timeout={"quick": 120, "thorough": 300},
+        doc="stabilizer backend on 30..44 photons: tensor product of noisy blocks of <= 3 qubits, weight and fidelity against the product of dense per-block references"),
     Sub("zero", check_zero, strategy=lambda tier: st_case(tier), n={"quick": 30, "thorough": 400}, timeout={"quick": 120, "thorough": 300}),
 ]
